@@ -32,6 +32,12 @@ class World:
             self._mesh = make_mesh(self.src, self.grid)
         return self._mesh
 
+    def scaled_mesh(self, facescale):
+        return make_mesh(self.src, self.grid, facescale=facescale)
+
+    def facevar_on(self, mesh, prefix):
+        return make_facevar(self.src, mesh, self.grid, prefix)
+
     def facevar(self, prefix, kind=None):
         if kind is not None:
             for a in range(self.nd):
